@@ -182,6 +182,25 @@ def Pc.symOk : Pc → Bool
 def Good (s : St) (th : Thread) (out : Out) (hi : Nat) : Prop :=
   ∃ i v, th.lo ≤ i ∧ i ≤ hi ∧ (s.recs th.p).texts[i]? = some v ∧ out = .ok (solo th.kind th.p v)
 
+/-- `Good`, decided by a search over the finitely many candidate versions -/
+def goodB (s : St) (th : Thread) (out : Out) (hi : Nat) : Bool :=
+  (List.range (hi + 1)).any fun i =>
+    decide (th.lo ≤ i) && match (s.recs th.p).texts[i]? with
+      | some v => out == .ok (solo th.kind th.p v)
+      | none => false
+
+theorem good_iff (s : St) (th : Thread) (out : Out) (hi : Nat) : Good s th out hi ↔ goodB s th out hi = true := by
+  unfold Good goodB
+  simp only [List.any_eq_true, List.mem_range, Bool.and_eq_true, decide_eq_true_eq]
+  constructor
+  · rintro ⟨i, v, h1, h2, h3, h4⟩
+    exact ⟨i, by omega, h1, by simp [h3, h4]⟩
+  · rintro ⟨i, h2, h1, h3⟩
+    split at h3
+    · rename_i v hv
+      exact ⟨i, v, h1, by omega, hv, by simpa using h3⟩
+    · simp at h3
+
 theorem good_mono {s s' : St} {th : Thread} {out hi} (h : Good s th out hi)
     (ht : ∀ (i : Nat) (v : Doc.Text), (s.recs th.p).texts[i]? = some v → (s'.recs th.p).texts[i]? = some v) :
     Good s' th out hi := by
@@ -827,5 +846,348 @@ theorem inv_run {s : St} (h : Inv s) (sched : List Tid) : Inv (run Cfg.repaired 
     cases hs : step Cfg.repaired s t with
     | none => simpa using ih h
     | some s' => simpa using ih (inv_step h hs)
+
+/-! ## the guards as propositions -/
+
+theorem analysing_iff (th : Thread) :
+    th.analysing = true ↔ th.pc ≠ .start ∧ th.pc.isDone = false ∧ th.kind ≠ .symbols := by
+  simp [Thread.analysing, Thread.inFlight, and_assoc]
+
+def Quiet (s : St) : Prop :=
+  ∀ (t₁ : Nat) (th₁ : Thread) (a : ARef) (t₂ : Nat) (th₂ : Thread), s.ths[t₁]? = some th₁ → th₁.pc.fills = some a →
+    s.ths[t₂]? = some th₂ → t₂ ≠ t₁ → th₂.p = th₁.p → th₂.analysing = false
+
+theorem quiet_iff (s : St) : quiet s = true ↔ Quiet s := by
+  unfold quiet Quiet
+  simp only [List.all_eq_true, List.mem_range]
+  constructor
+  · intro h t₁ th₁ a t₂ th₂ h1 hf h2 hne hp
+    have l1 := (List.getElem?_eq_some_iff.mp h1).1
+    have l2 := (List.getElem?_eq_some_iff.mp h2).1
+    have := h t₁ l1
+    simp only [h1, hf, Option.isNone_some, Bool.false_or, List.all_eq_true, List.mem_range] at this
+    have := this t₂ l2
+    simp only [h2, Bool.or_eq_true, beq_iff_eq, bne_iff_ne, ne_eq, Bool.not_eq_true'] at this
+    rcases this with (e | e) | e
+    · exact absurd e hne
+    · exact absurd hp e
+    · exact e
+  · intro h t₁ l1
+    split
+    · rfl
+    · rename_i th₁ h1
+      cases hf : th₁.pc.fills with
+      | none => simp
+      | some a =>
+        simp only [Option.isNone_some, Bool.false_or, List.all_eq_true, List.mem_range]
+        intro t₂ l2
+        split
+        · rfl
+        · rename_i th₂ h2
+          by_cases e1 : t₂ = t₁
+          · simp [e1]
+          · by_cases e2 : th₂.p = th₁.p
+            · simp [h t₁ th₁ a t₂ th₂ h1 hf h2 e1 e2]
+            · simp [e2]
+
+/-- `stepOk` for the main thread -/
+def MainOk (s : St) : Prop :=
+  ∀ p, s.main.opPath = some p → ∀ (u : Nat) (thu : Thread), s.ths[u]? = some thu → thu.analysing = true → thu.p ≠ p
+
+theorem mainOk_of (s : St) (h : stepOk s 0 = true) : MainOk s := by
+  intro p hp u thu hu ha e
+  simp only [stepOk, hp, List.all_eq_true] at h
+  have := h thu (List.mem_of_getElem? hu)
+  simp [ha, e] at this
+
+/-- `stepOk` for request thread `t` -/
+theorem thOk_of (s : St) (t : Nat) (th : Thread) (h : stepOk s (t + 1) = true) (ht : s.ths[t]? = some th)
+    (hpc : th.pc = .start) (hk : th.kind ≠ .symbols) : s.main.midOp th.p = false := by
+  simp only [stepOk, ht] at h
+  simpa [hpc, hk] using h
+
+/-- the pcs of a diagnostic request after its first `get_parsed_document` -/
+def Pc.afterFirst : Pc → Bool
+  | .start => false
+  | .gpRead ph => ph != 0
+  | .yParsed ph => ph != 0
+  | .lockTree => true
+  | .tabRead => true
+  | .gpNoCache => true
+  | .check _ => true
+  | .yChecked _ => true
+  | .publish _ _ => true
+  | .setDefs _ _ _ => true
+  | .yPublished _ _ _ => true
+  | .fill _ _ _ => true
+  | .unflag _ _ _ => true
+  | .readAnnot _ => true
+  | .waitFlag _ _ => true
+  | .walk _ => true
+  | .walkTab _ => true
+  | .treeWait _ => true
+  | .done _ _ => true
+
+/-- the pc refers to its own annotation `a` of document `d` (published by this thread) -/
+def Pc.made (d : Ref) (a : ARef) : Pc → Bool
+  | .setDefs d' a' _ => d' == d && a' == a
+  | .yPublished d' a' _ => d' == d && a' == a
+  | .fill d' a' _ => d' == d && a' == a
+  | .unflag d' a' _ => d' == d && a' == a
+  | .start => false
+  | .lockTree => false
+  | .gpRead _ => false
+  | .yParsed _ => false
+  | .tabRead => false
+  | .gpNoCache => false
+  | .check _ => false
+  | .yChecked _ => false
+  | .publish _ _ => false
+  | .readAnnot _ => false
+  | .waitFlag _ _ => false
+  | .walk _ => false
+  | .walkTab _ => false
+  | .treeWait _ => false
+  | .done _ _ => false
+
+/-- the pc is about to compute (or is waiting to compute) an answer from annotation `a` -/
+def Pc.reads (a : ARef) : Pc → Bool
+  | .walk a' => a' == a
+  | .waitFlag _ a' => a' == a
+  | .start => false
+  | .lockTree => false
+  | .gpRead _ => false
+  | .yParsed _ => false
+  | .tabRead => false
+  | .gpNoCache => false
+  | .check _ => false
+  | .yChecked _ => false
+  | .publish _ _ => false
+  | .setDefs _ _ _ => false
+  | .yPublished _ _ _ => false
+  | .fill _ _ _ => false
+  | .unflag _ _ _ => false
+  | .readAnnot _ => false
+  | .walkTab _ => false
+  | .treeWait _ => false
+  | .done _ _ => false
+
+/-! ## the invariant of guarded schedules -/
+
+structure GInv (s : St) : Prop where
+  bad : s.badReads = 0
+  aiLo : ∀ (t : Nat) (th : Thread), s.ths[t]? = some th → th.analysing = true →
+    s.main.midOp th.p = false ∧ th.lo = (s.recs th.p).completed
+  tabIdx : ∀ p (a : ARef) (y : Ann) (x : DocObj), (s.recs p).tab = some a → s.anns[a]? = some y → s.docs[y.doc]? = some x →
+    (s.recs p).completed ≤ x.idx
+  diagD1 : ∀ (t : Nat) (th : Thread), s.ths[t]? = some th → th.kind = .diag → th.pc.afterFirst = true → th.d1 ≠ none
+  readOk : ∀ (t : Nat) (th : Thread) (d : Ref), s.ths[t]? = some th → th.pc = .readAnnot d →
+    ∃ x a y, s.docs[d]? = some x ∧ x.annot = some a ∧ s.anns[a]? = some y ∧ y.filled = true ∧
+      (th.kind.wantsDefs = false → y.onlyDefs = false)
+  madeOk : ∀ (t : Nat) (th : Thread) (d : Ref) (a : ARef), s.ths[t]? = some th → th.pc.made d a = true →
+    ∃ x y, s.docs[d]? = some x ∧ x.annot = some a ∧ s.anns[a]? = some y ∧ y.onlyDefs = th.kind.wantsDefs ∧ y.by' = t
+  unflagOk : ∀ (t : Nat) (th : Thread) (d : Ref) (a : ARef) (held : Bool), s.ths[t]? = some th → th.pc = .unflag d a held →
+    ∃ y, s.anns[a]? = some y ∧ y.filled = true
+  defsOk : ∀ (d : Ref) (x : DocObj) (a : ARef) (y : Ann), s.docs[d]? = some x → x.annot = some a → s.anns[a]? = some y →
+    y.onlyDefs = x.onlyDefs ∨ ∃ th, s.ths[y.by']? = some th ∧ th.pc.setsDefs d a = true
+  walkOk : ∀ (t : Nat) (th : Thread) (a : ARef) (y : Ann), s.ths[t]? = some th → th.pc.reads a = true → s.anns[a]? = some y →
+    y.filled = true ∧ (th.kind.wantsDefs = false → y.onlyDefs = false)
+  walkTabOk : ∀ (t : Nat) (th : Thread) (a : ARef), s.ths[t]? = some th → th.pc = .walkTab a →
+    ∃ y x, s.anns[a]? = some y ∧ s.docs[y.doc]? = some x ∧ y.filled = true ∧ th.lo ≤ x.idx
+  treeOk : ∀ (t : Nat) (th : Thread) (out : Out), s.ths[t]? = some th → th.pc = .treeWait out →
+    Good s th out (s.recs th.p).started
+  doneOk : ∀ (t : Nat) (th : Thread) (out : Out) (hi : Nat), s.ths[t]? = some th → th.pc = .done out hi → Good s th out hi
+
+theorem ginv_init (disk : Doc.Path → Doc.Text) (ops : List Op) (reqs : Reqs) : GInv (init disk ops reqs) := by
+  constructor <;> intros <;> simp_all [init, Rec.fresh, reqThread, List.getElem?_map]
+  all_goals (try grind [Pc.made, Pc.reads, Pc.afterFirst, reqThread, analysing_iff, Pc.isDone])
+
+/-! ## tactics for `GInv` -/
+
+macro "gcl" : tactic =>
+  `(tactic| (intros; st_simp; grind [MPc.midOp, MPc.opPath, Pc.holds, Pc.owns, Pc.fills, Pc.setsDefs, Pc.symOk, Pc.made, Pc.reads,
+      Pc.afterFirst, Pc.isDone, analysing_iff, newDoc]))
+
+/-- every clause of `GInv` except the two about `Good` -/
+macro "ginv_auto" hi:ident hg:ident : tactic =>
+  `(tactic| (
+    refine ⟨?bad, ?aiLo, ?tabIdx, ?diagD1, ?readOk, ?madeOk, ?unflagOk, ?defsOk, ?walkOk, ?walkTabOk, ?treeOk, ?doneOk⟩
+    case' bad => try (have := ($hg).bad; gcl)
+    case' aiLo => try (have := ($hg).aiLo; have := ($hi).recIdle; gcl)
+    case' tabIdx => try (have := ($hg).tabIdx; have := ($hg).aiLo; have := ($hi).thDoc; have := ($hi).thAnn; have := ($hi).annDoc; gcl)
+    case' diagD1 => try (have := ($hg).diagD1; gcl)
+    case' readOk => try (have := ($hg).readOk; have := ($hg).madeOk; have := ($hg).unflagOk; gcl)
+    case' madeOk => try (have := ($hg).madeOk; gcl)
+    case' unflagOk => try (have := ($hg).unflagOk; gcl)
+    case' defsOk => try (have := ($hg).defsOk; have := ($hg).madeOk; gcl)
+    case' walkOk => try (have := ($hg).walkOk; have := ($hg).readOk; gcl)
+    case' walkTabOk => try (have := ($hg).walkTabOk; gcl)))
+
+theorem good_hi {s : St} {th : Thread} {out hi hi'} (h : Good s th out hi) (hle : hi ≤ hi') : Good s th out hi' := by
+  obtain ⟨i, v, h1, h2, h3, h4⟩ := h
+  exact ⟨i, v, h1, by omega, h3, h4⟩
+
+theorem gdone_main {s s' : St} (hg : GInv s) (hths : s'.ths = s.ths)
+    (htx : ∀ p (i : Nat) (v : Doc.Text), (s.recs p).texts[i]? = some v → (s'.recs p).texts[i]? = some v) :
+    ∀ (t : Nat) (th : Thread) (out : Out) (hi : Nat), s'.ths[t]? = some th → th.pc = .done out hi → Good s' th out hi := by
+  intro t th out hi ht hpc
+  rw [hths] at ht
+  exact good_mono (hg.doneOk t th out hi ht hpc) (htx th.p)
+
+theorem gtree_main {s s' : St} (hg : GInv s) (hths : s'.ths = s.ths)
+    (htx : ∀ p (i : Nat) (v : Doc.Text), (s.recs p).texts[i]? = some v → (s'.recs p).texts[i]? = some v)
+    (hst : ∀ p, (s.recs p).started ≤ (s'.recs p).started) :
+    ∀ (t : Nat) (th : Thread) (out : Out), s'.ths[t]? = some th → th.pc = .treeWait out → Good s' th out (s'.recs th.p).started := by
+  intro t th out ht hpc
+  rw [hths] at ht
+  exact good_hi (good_mono (hg.treeOk t th out ht hpc) (htx th.p)) (hst th.p)
+
+macro "texts_app" : tactic =>
+  `(tactic| (intro q i w hh; st_simp;
+             first
+             | exact hh
+             | (split <;> first | exact hh | (subst_vars; first | exact get_append_of_get hh | exact hh))))
+
+theorem ginv_main_change {s s' : St} {p v l} (hi : Inv s) (hg : GInv s) (hok : MainOk s) (hm : s.main = .ops (.change p v :: l))
+    (hs : stepMain Cfg.repaired s = some s') : GInv s' := by
+  have hok' := hok p (by simp [hm, MPc.opPath])
+  main_case hs hm
+  ginv_auto hi hg
+  case treeOk => exact gtree_main hg rfl (by texts_app) (by intro q; st_simp; first | exact Nat.le_refl _ | (split <;> simp_all))
+  case doneOk => exact gdone_main hg rfl (by texts_app)
+
+theorem ginv_main_window {s s' : St} {p l} (hi : Inv s) (hg : GInv s) (hok : MainOk s) (hm : s.main = .window p l)
+    (hs : stepMain Cfg.repaired s = some s') : GInv s' := by
+  have hok' := hok p (by simp [hm, MPc.opPath])
+  main_case hs hm
+  have hnew : (s.docs ++ [newDoc p (s.recs p).started])[s.docs.length]? = some (newDoc p (s.recs p).started) := by simp
+  ginv_auto hi hg
+  case treeOk => exact gtree_main hg rfl (by texts_app) (by intro q; st_simp; first | exact Nat.le_refl _ | (split <;> simp_all))
+  case doneOk => exact gdone_main hg rfl (by texts_app)
+
+theorem ginv_main_save {s s' : St} {p v l} (hi : Inv s) (hg : GInv s) (hok : MainOk s) (hm : s.main = .ops (.save p v :: l))
+    (hs : stepMain Cfg.repaired s = some s') : GInv s' := by
+  have hok' := hok p (by simp [hm, MPc.opPath])
+  main_case hs hm
+  ginv_auto hi hg
+  case treeOk => exact gtree_main hg rfl (by texts_app) (by intro q; st_simp; first | exact Nat.le_refl _ | (split <;> simp_all))
+  case doneOk => exact gdone_main hg rfl (by texts_app)
+
+theorem ginv_main_saved {s s' : St} {p l} (hi : Inv s) (hg : GInv s) (hok : MainOk s) (hm : s.main = .save p l)
+    (hs : stepMain Cfg.repaired s = some s') : GInv s' := by
+  have hok' := hok p (by simp [hm, MPc.opPath])
+  main_case hs hm
+  ginv_auto hi hg
+  case treeOk => exact gtree_main hg rfl (by texts_app) (by intro q; st_simp; first | exact Nat.le_refl _ | (split <;> simp_all))
+  case doneOk => exact gdone_main hg rfl (by texts_app)
+
+theorem ginv_main_close {s s' : St} {p l} (hi : Inv s) (hg : GInv s) (hok : MainOk s) (hm : s.main = .ops (.close p :: l))
+    (hs : stepMain Cfg.repaired s = some s') : GInv s' := by
+  have hok' := hok p (by simp [hm, MPc.opPath])
+  main_case hs hm
+  ginv_auto hi hg
+  case treeOk => exact gtree_main hg rfl (by texts_app) (by intro q; st_simp; first | exact Nat.le_refl _ | (split <;> simp_all))
+  case doneOk => exact gdone_main hg rfl (by texts_app)
+
+theorem ginv_main_opened {s s' : St} {p l} (hi : Inv s) (hg : GInv s) (hm : s.main = .ops (.opened p :: l))
+    (hs : stepMain Cfg.repaired s = some s') : GInv s' := by
+  main_case hs hm
+  ginv_auto hi hg
+  case treeOk => exact gtree_main hg rfl (fun _ _ _ hh => hh) (fun _ => Nat.le_refl _)
+  case doneOk => exact gdone_main hg rfl (fun _ _ _ hh => hh)
+
+theorem ginv_stepMain {s s' : St} (hi : Inv s) (hg : GInv s) (hok : MainOk s) (hs : stepMain Cfg.repaired s = some s') : GInv s' := by
+  cases hm : s.main with
+  | ops l =>
+    cases l with
+    | nil => unfold stepMain at hs; simp [hm] at hs
+    | cons o l =>
+      cases o with
+      | change p v => exact ginv_main_change hi hg hok hm hs
+      | save p v => exact ginv_main_save hi hg hok hm hs
+      | close p => exact ginv_main_close hi hg hok hm hs
+      | opened p => exact ginv_main_opened hi hg hm hs
+  | window p l => exact ginv_main_window hi hg hok hm hs
+  | save p l => exact ginv_main_saved hi hg hok hm hs
+
+/-! ## request threads preserve `GInv` along guarded schedules -/
+
+theorem gdone_th {s s' : St} {t : Nat} {th' : Thread} (hg : GInv s) (hths : s'.ths = s.ths.set t th')
+    (htx : ∀ p (i : Nat) (v : Doc.Text), (s.recs p).texts[i]? = some v → (s'.recs p).texts[i]? = some v)
+    (hnew : ∀ out hi, th'.pc = .done out hi → Good s' th' out hi) :
+    ∀ (u : Nat) (thu : Thread) (out : Out) (hi : Nat), s'.ths[u]? = some thu → thu.pc = .done out hi → Good s' thu out hi := by
+  intro u thu out hi hu hpc
+  rw [hths] at hu
+  by_cases e : t = u
+  · subst e
+    have : thu = th' := by
+      rw [List.getElem?_set] at hu
+      simp only [if_true] at hu
+      split at hu <;> simp_all
+    subst this
+    exact hnew out hi hpc
+  · rw [List.getElem?_set_ne e] at hu
+    exact good_mono (hg.doneOk u thu out hi hu hpc) (htx thu.p)
+
+theorem gtree_th {s s' : St} {t : Nat} {th' : Thread} (hg : GInv s) (hths : s'.ths = s.ths.set t th')
+    (htx : ∀ p (i : Nat) (v : Doc.Text), (s.recs p).texts[i]? = some v → (s'.recs p).texts[i]? = some v)
+    (hst : ∀ p, (s.recs p).started ≤ (s'.recs p).started)
+    (hnew : ∀ out, th'.pc = .treeWait out → Good s' th' out (s'.recs th'.p).started) :
+    ∀ (u : Nat) (thu : Thread) (out : Out), s'.ths[u]? = some thu → thu.pc = .treeWait out →
+      Good s' thu out (s'.recs thu.p).started := by
+  intro u thu out hu hpc
+  rw [hths] at hu
+  by_cases e : t = u
+  · subst e
+    have : thu = th' := by
+      rw [List.getElem?_set] at hu
+      simp only [if_true] at hu
+      split at hu <;> simp_all
+    subst this
+    exact hnew out hpc
+  · rw [List.getElem?_set_ne e] at hu
+    exact good_hi (good_mono (hg.treeOk u thu out hu hpc) (htx thu.p)) (hst thu.p)
+
+theorem gdone_set {s s₁ : St} {t : Nat} {th' : Thread} (hg : GInv s) (hths : s₁.ths = s.ths)
+    (htx : ∀ p (i : Nat) (v : Doc.Text), (s.recs p).texts[i]? = some v → (s₁.recs p).texts[i]? = some v)
+    (hnew : ∀ out hi, th'.pc = .done out hi → Good s₁ th' out hi) :
+    ∀ (u : Nat) (thu : Thread) (out : Out) (hi : Nat), (s₁.setTh t th').ths[u]? = some thu → thu.pc = .done out hi →
+      Good (s₁.setTh t th') thu out hi :=
+  gdone_th (s' := s₁.setTh t th') (t := t) (th' := th') hg (by simp [hths]) htx hnew
+
+theorem gtree_set {s s₁ : St} {t : Nat} {th' : Thread} (hg : GInv s) (hths : s₁.ths = s.ths)
+    (htx : ∀ p (i : Nat) (v : Doc.Text), (s.recs p).texts[i]? = some v → (s₁.recs p).texts[i]? = some v)
+    (hst : ∀ p, (s.recs p).started ≤ (s₁.recs p).started)
+    (hnew : ∀ out, th'.pc = .treeWait out → Good s₁ th' out (s₁.recs th'.p).started) :
+    ∀ (u : Nat) (thu : Thread) (out : Out), (s₁.setTh t th').ths[u]? = some thu → thu.pc = .treeWait out →
+      Good (s₁.setTh t th') thu out ((s₁.setTh t th').recs thu.p).started :=
+  gtree_th (s' := s₁.setTh t th') (t := t) (th' := th') hg (by simp [hths]) htx hst hnew
+
+macro "started_same" : tactic =>
+  `(tactic| (intro q; st_simp; first | exact Nat.le_refl _ | (split <;> first | exact Nat.le_refl _ | (subst_vars; exact Nat.le_refl _))))
+
+/-- the two `Good` clauses when the stepping thread ends neither in `done` nor in `treeWait` -/
+macro "good_frame" hg:ident : tactic =>
+  `(tactic| (
+    case' treeOk =>
+      refine gtree_set $hg ?_ ?_ ?_ ?_
+      · rfl
+      · texts_same
+      · started_same
+      · intro out hh; first | (simp at hh; done) | (split at hh <;> simp at hh; done)
+    case' doneOk =>
+      refine gdone_set $hg ?_ ?_ ?_
+      · rfl
+      · texts_same
+      · intro out hi hh; first | (simp at hh; done) | (split at hh <;> simp at hh; done)))
+
+theorem ginv_th_start {s s' : St} {t : Nat} {th : Thread} (hi : Inv s) (hg : GInv s)
+    (hok : th.kind ≠ .symbols → s.main.midOp th.p = false)
+    (ht : s.ths[t]? = some th) (hpc : th.pc = .start) (hs : stepTh s t th = some s') : GInv s' := by
+  unfold stepTh at hs
+  simp only [hpc, Option.some.injEq] at hs
+  subst hs
+  ginv_auto hi hg
+  good_frame hg
 
 end Gold.Conc
